@@ -133,10 +133,15 @@ class Scenario:
                 return out
             return f
         if kind == "native":
-            async def f(x):
+            # a consumer that hands back a native coroutine object (awaitable exactly once);
+            # the hand-off is logged when the consumer is called, like for the other kinds
+            def f(x):
                 g = begin(x)
-                await g.fut
-                end(x)
+
+                async def body():
+                    await g.fut
+                    end(x)
+                return body()
             return f
         if kind == "gen":
             from tornado import gen
@@ -233,6 +238,7 @@ class Producer:
         self.pending = []             # (idx, awaitable future)
         self.completed = []           # (idx, time) emit awaitable done
         self.raised = []              # (idx, exc)
+        self._unseen = []             # (idx, item, future) completion not yet recorded
 
     def inflight(self):
         return sum(1 for _, f in self.pending if not f.done())
@@ -271,8 +277,18 @@ class Producer:
         import asyncio
         fut = asyncio.ensure_future(r) if not hasattr(r, "add_done_callback") else r
         self.pending.append((i, fut))
+        self._unseen.append((i, x, fut))
 
-        def done(f, i=i, x=x):
+    def poll(self):
+        """Record emit awaitables that completed during the last action.  Polled by the
+        explorer right after every action, so the completion is observed at the moment it
+        happens (a done-callback would run an iteration later, after other things changed)."""
+        scen = self.scen
+        still = []
+        for i, x, f in self._unseen:
+            if not f.done():
+                still.append((i, x, f))
+                continue
             exc = f.exception() if not f.cancelled() else None
             if exc is not None:
                 self.raised.append((i, exc))
@@ -282,7 +298,7 @@ class Producer:
                 scen.log.append(("emit-done", self.name, scen.loop.time(), _freeze(x)))
                 self.completed.append((i, scen.loop.time()))
                 scen.on_emit_done(self, i, x)
-        fut.add_done_callback(done)
+        self._unseen = still
 
 
 class Exec:
@@ -363,6 +379,8 @@ class Exec:
             if label != "run" and label != "tick":
                 loop.note_progress()
             menu[c][1]()
+            for pr in scen.producers:
+                pr.poll()
             self._add(scen.check_step())
             if self.want_fp:
                 self.fps.append(hash(scen.fingerprint()))
@@ -382,8 +400,12 @@ class Exec:
             n += 1
             if n > MAX_STEPS:
                 raise Livelock("closing phase does not quiesce")
+            for pr in scen.producers:
+                pr.poll()
             if loop.has_ready() or loop.due():
                 loop.run_iteration()
+                for pr in scen.producers:
+                    pr.poll()
                 self._add(scen.check_step())
                 continue
             pg = scen.pending_gates()
